@@ -48,6 +48,7 @@ struct Waiter {
     Ctx *cx;
     long id, slot, m;
     bool resumed = false;
+    std::vector<long> rel;   // slots the callback release()s after storing its grant
     co_awaiter<mutex> aw;
     Waiter(Ctx *c, long i, long s, long mm, mutex &mx) : cx(c), id(i), slot(s), m(mm), aw(mx.lock()) {}
 };
@@ -74,7 +75,7 @@ struct Ctx {
     }
     bool targeted(long j) {
         for (auto &w : waiters)
-            if (!w->resumed && w->slot == j) return true;
+            if (!w->resumed && (w->slot == j || std::find(w->rel.begin(), w->rel.end(), j) != w->rel.end())) return true;
         return false;
     }
     void emit(long r) {
@@ -92,6 +93,7 @@ static suspend_point<void> on_grant(awaiter *, void *u) noexcept {
     w->resumed = true;
     w->cx->log.push_back(w->id);
     *w->cx->slots[w->slot] = w->aw.await_resume();
+    for (long r : w->rel) w->cx->slots[r]->release();
     return {};
 }
 
@@ -111,10 +113,14 @@ static void exec(Ctx &c, const std::vector<long> &op) {
                 c.emit(was_free);
             }
             return;
-        case 2:
-            if (!arity(3) || !okm(op[1]) || !oks(op[2])) break;
+        case 2:   // 2 m j [a [b]]: after storing its grant into slots[j] the callback calls slots[a].release(), slots[b].release()
+            if (op.size() < 3 || op.size() > 5 || !okm(op[1]) || !oks(op[2])) break;
             {
+                bool ok = true;
+                for (size_t i = 3; i < op.size(); i++) ok = ok && oks(op[i]);
+                if (!ok) break;
                 auto *w = new Waiter(&c, (long)c.waiters.size(), op[2], op[1], c.mx[op[1]]);
+                w->rel.assign(op.begin() + 3, op.end());
                 if (w->aw.await_ready() || !w->aw.await_suspend(&on_grant, w)) {
                     *c.slots[op[2]] = w->aw.await_resume();
                     delete w;
